@@ -2,5 +2,5 @@ SPECIFICATION Spec
 CONSTANTS
   MaxLines = 3
   MaxCells = 2
-INVARIANTS PosUnique ExactIsWF NoOtherPos ShiftSound LenAdditive BlankSound
+INVARIANTS PosUnique ExactIsWF NoOtherPos ShiftSound LenAdditive AppendSound BlankSound
 CHECK_DEADLOCK FALSE
